@@ -80,12 +80,21 @@ def main(tier, seed):
     # (b) variant-vs-variant differential
     rng = Rng(seed)
     T = c04.templates(C)
-    per = 8 if tier == "quick" else 40
+    per = 32 if tier == "quick" else 96
     sizes = [1, 15, 16, 17, 31, 32, 33, 63, 64, 65, 100, 127, 128, 129, 255, 256, 257, 511, 512, 513, 1000, 1024, 1500, 2000]
     items = []
+    deltas = [0, 1, 3, 16, 17, 32, 64, 100, 256, 1000]
     for name, b in T:
+        # the items of one algorithm travel together in the batched pass: they share a base length (the shortest job of
+        # the group, so that the "common length" logic of the multi-buffer kernels sees every base, incl. multiples of
+        # the block and of the key-stream round) and differ by tails
+        aligned = [32, 64, 96, 128, 256, 512, 1024]
+        base = rng.choice(aligned)
         for k in range(per):
-            items.append((len(items) + 1, name, b(rng, rng.choice(sizes))))
+            if k and k % 8 == 0:
+                base = rng.choice(sizes if (k // 8) % 2 else aligned)
+            n = base if k % 8 == 0 else min(base + rng.choice(deltas), 2048 if base <= 2048 else base)
+            items.append((len(items) + 1, name, b(rng, n)))
     workdir = os.path.join(common.BUILD, "c08")
     os.makedirs(workdir, exist_ok=True)
     shards = []
